@@ -9,6 +9,7 @@ structure Extras where
   jets : List (String × List Bool × Option (List Bool)) := []
   jetTypes : List (String × BM4.Ty × BM4.Ty) := []
   jetCmrs : List (String × Nat) := []
+  jetCosts : List (String × Nat) := []
   input : List Bool := []
 
 def parseExtras : List String → Extras → Option Extras
@@ -28,6 +29,9 @@ def parseExtras : List String → Extras → Option Extras
     | ["C", name, h] => do
       let bs ← Drv.hexBytes? h
       parseExtras ts { e with jetCmrs := (name, Sha2.natOfBytes bs) :: e.jetCmrs }
+    | ["K", name, c] => do
+      let c ← c.toNat?
+      parseExtras ts { e with jetCosts := (name, c) :: e.jetCosts }
     | ["I", bits] => do
       let b ← Drv.bits? bits
       parseExtras ts { e with input := b }
@@ -38,6 +42,9 @@ def Extras.jetTy (e : Extras) : JetTypes := fun n =>
 
 def Extras.jetCmr (e : Extras) : String → Option Nat := fun n =>
   (e.jetCmrs.find? (·.1 = n)).map (·.2)
+
+def Extras.jetCost (e : Extras) : String → Option Nat := fun n =>
+  (e.jetCosts.find? (·.1 = n)).map (·.2)
 
 def Extras.jetSem (e : Extras) : JetSem := fun n inp =>
   (e.jets.find? fun (m, i, _) => m = n ∧ i = inp).map (·.2.2)
